@@ -17,20 +17,20 @@ CLAIMED = {
     "C01": dict(
         technique="symbolic execution of Graph/Memory/SimpleMemory (CrossHair + z3) with opaque symbolic terms against a set model",
         text="Bounded symbolic model checking of the real Graph + store code: for each enumerated history shape (op kinds, k<=3 quick / "
-             "k<=4 thorough; binary operators; open-iterator schedules) z3 decides, over all term identities incl. the falsy term, "
+             "k<=4 thorough; binary operators; open-iterator schedules; k=3 growing histories with whole-content observation) z3 decides, over all term identities incl. the falsy term, "
              "whether triples() under all 8 pattern shapes, len, membership and iteration equal the set model.",
         ref="DESIGN.md section 3 C01"),
     "C02": dict(
         technique="symbolic execution of Dataset/ConjunctiveGraph/Memory context bookkeeping (CrossHair + z3) against a name->set model",
         text="Bounded symbolic model checking of Dataset over Memory: enumerated histories (add/remove/pattern remove/graph/remove_graph, "
              "k<=3) x symbolic terms; quads(), graphs(), per-graph views, quad membership, restricted and union reads all compared with "
-             "a name -> triple-set model, incl. empty-but-existing and unknown graphs, default_union on and off.",
+             "a name -> triple-set model under all 8 pattern shapes, incl. empty-but-existing and unknown graphs, remove_graph(None), default_union on and off.",
         ref="DESIGN.md section 3 C02"),
     "C18": dict(
         technique="symbolic execution of AuditableStore over Memory (CrossHair + z3): rollback/commit vs. snapshot and model",
         text="Bounded symbolic model checking of the undo log: symbolic initial content (0-2 triples) and symbolic transaction triples, "
              "enumerated op shapes (add, 8 remove patterns, with/without graph) up to 3 ops (thorough 4), rollback/commit endings, and "
-             "two wrappers with every interleaving of <=2 ops each on pairwise different triples.",
+             "two wrappers with every interleaving of <=2 ops each on pairwise different triples, plus an always-included family where another store-changing op sits between remove(t) and add(t).",
         ref="DESIGN.md section 3 C18"),
     "C19": dict(
         technique="symbolic execution of Collection/Graph.items/value/set (CrossHair + z3) differentially against a Python list",
@@ -44,14 +44,14 @@ CLAIMED = {
         text="Bounded symbolic model checking of property-path evaluation through Graph.triples/subjects/objects/subject_objects: all "
              "depth<=1 path expressions (quick; all depth-2 in thorough) x edge-predicate shapes (n<=2, thorough 3 edges) x the four "
              "bound/unbound end combinations; edge end points and bound terms symbolic (falsy terms, terms absent from the graph, cycles "
-             "and self-loops are the solver's choice); produced pairs compared with composition/union/converse/closure, termination by a "
+             "and self-loops are the solver's choice), and the same expressions as SPARQL triple patterns (rdflib's parser and translatePath; nodes symbolic IRIs or integer literals); produced pairs compared with composition/union/converse/closure, termination by a "
              "step budget, no duplicates for closures. One recorded finding (negated sets with inverse members) is re-checked against an "
              "oracle modelling exactly that defect so that other violations at the same site are still reported.",
         ref="DESIGN.md section 3 C11"),
     "C04": dict(
         technique="symbolic execution of rdflib's SPARQL evaluator (CrossHair + z3) on symbolic data against a bottom-up algebra reference",
         text="Bounded symbolic model checking of evalQuery and the evaluators it dispatches to: a generated catalogue of query templates "
-             "(57 single-operator, 8 GRAPH, 408 depth-2 nestings; every variable-sharing pattern) is parsed and translated by rdflib "
+             "(63 single-operator, 8 GRAPH, 408 depth-2 nestings; every variable-sharing pattern; data as symbolic IRIs and, in a second variant, as symbolic integer literals incl. the falsy one) is parsed and translated by rdflib "
              "itself, then evaluated over n=2..3 symbolic triples with symbolic query constants; the solution multiset (SELECT), the ASK "
              "boolean and the CONSTRUCT graph are compared with a reference evaluator written from SPARQL 1.1 section 18. Three recorded "
              "scope deviations of rdflib's top-down evaluation are known findings keyed by a syntactic class of the query.",
@@ -62,7 +62,7 @@ CLAIMED = {
              "DATA, DELETE WHERE, DELETE/INSERT/WHERE with overlapping delete/insert sets, unbound and illegal template terms, blank "
              "nodes, WITH, USING, GRAPH templates, CLEAR/DROP, ADD/MOVE/COPY over every src/dst incl. missing graphs and src=dst, "
              "multi-operation requests) applied through Graph, Dataset and ConjunctiveGraph with the default-graph-union switch off/on, "
-             "over n=2 (thorough 3) symbolic triples placed in default/g1/g2 by shape; every graph compared with the reference afterwards.",
+             "over n=2 (thorough 3) symbolic triples placed in default/g1/g2 by shape; every graph compared with the reference afterwards. Includes templates repeating a graph name in separate GRAPH blocks and GRAPH-block deletions meeting plain insertions on the WITH graph.",
         ref="DESIGN.md section 3 C10"),
     "C08": dict(
         technique="symbolic execution of rdflib's modifier/aggregate evaluators (CrossHair + z3) against the SPARQL definitions; LIMIT/OFFSET and literal values symbolic",
@@ -78,14 +78,14 @@ CLAIMED = {
              "graphs, an existing empty graph) holding n=2 symbolic triples, the store's per-graph content and set of graphs is "
              "snapshotted through the store interface, one read is performed twice (C04/C08 catalogue queries incl. CONSTRUCT, path "
              "evaluation, iteration, len, membership, 8 slice shapes, restricted triples/quads, accessors, operators + - * ^, read calls "
-             "naming a graph by a foreign Graph object) and the snapshot must be unchanged and both answers equal. Serializers, "
+             "naming a graph by a foreign Graph object, queries with FROM / FROM NAMED naming a loadable local document) and the snapshot must be unchanged and both answers equal. Serializers, "
              "isomorphic, canonicalisation, graph_diff and DESCRIBE are covered only by a shape-symbolic supplement (512 membership cases).",
         ref="DESIGN.md section 3 C13"),
     "C15": dict(
         technique="differential symbolic execution (CrossHair + z3): two evaluations of rdflib's SPARQL engine on the same symbolic data inside one path",
         text="Bounded symbolic differential checking without an oracle: BGP triple-pattern permutations, operand swaps of joins and unions, "
              "consistent variable renaming with PREFIX spelling over the C04/C08/C11 catalogues, initBindings vs a VALUES row with a "
-             "symbolic term, one prepared Query object re-used on symbolic graphs G1, G2, G1 vs freshly prepared copies, and the same "
+             "symbolic term, one prepared Query object re-used on symbolic graphs G1, G2, G1 and with / without initBindings vs freshly prepared copies, data as symbolic IRIs and as (falsy-capable) integer literals, and the same "
              "data in Memory / SimpleMemory / AuditableStore / ReadOnlyGraphAggregate; solution multisets must coincide for every content.",
         ref="DESIGN.md section 3 C15"),
     "C05": dict(
@@ -106,7 +106,7 @@ CLAIMED = {
              "nt._quote_encode -> ntriples.unquote, Literal._quote_encode (short and triple-quoted branch) -> SinkParser.strconst with "
              "exact end-of-token detection before @lang / ^^<iri> / ' .', XML text/attribute escaping against a reference unescaper, and the "
              "Turtle numeric/boolean shorthand of Literal._literal_n3 re-typed by the grammar for every valid lexical form up to length "
-             "4-5. Document-level structure (bnode inlining, lists, qnames, RDF/XML nesting, JSON-LD) is not claimed.",
+             "4-5; engine S on the serializers' list-detection code (JSON-LD to_collection, Turtle/LongTurtle isValidList) over rdf:first/rdf:rest chains with symbolic members and 6 defect shapes incl. cycles (step budget). Document-level structure (bnode inlining, qnames, RDF/XML nesting, whole JSON-LD documents) is not claimed.",
         note="Trusted base: CrossHair 0.0.110's model of Python str/int (counterexamples are replayed outside CrossHair; it has a known "
              "unsoundness around negative slice bounds on symbolic strings), z3, the %s/str.format shims, the reference decoders/matchers "
              "written from the W3C/XSD grammars, the regex translator for the R obligations. Strings longer than the stated bound are "
@@ -116,7 +116,7 @@ CLAIMED = {
         text="Partial claim: only the clause 'a term's n3() text read back by the Turtle/SPARQL readers is the same term', for the parts built "
              "from str kernels: literal lexical forms (length <=3, thorough 4, bare and with @lang/^^iri, both quoting branches), language "
              "tags (Literal()'s pattern = LANGTAG, within the N3 and SPARQL readers' patterns, any length), generated blank-node labels "
-             "and gate-passing absolute IRIs within the readers' token patterns (any length). Equality/hash/ordering/pickling laws over "
+             "and gate-passing absolute IRIs within the readers' token patterns (any length); Literal.__eq__/__ne__ reflexive, symmetric, transitive and = (lexical, datatype, lower-cased tag) over symbolic language tags and symbolic datatype identities with concrete lexical forms. Other equality/hash/ordering/pickling laws over "
              "term contents are NOT covered (contents cannot be symbolic); the finite kind-order tables are checked by enumeration.",
         note="Trusted base: CrossHair 0.0.110's model of Python str/int (counterexamples are replayed outside CrossHair; it has a known "
              "unsoundness around negative slice bounds on symbolic strings), z3, the %s/str.format shims, the reference decoders/matchers "
@@ -127,7 +127,7 @@ CLAIMED = {
         text="Partial claim: the 13 integer-derived datatypes' well-formedness checkers accept every integer of the XSD value space "
              "(unbounded ints), the boolean lexical mapping on all strings up to length 5, the Gregorian days-in-month kernel for all "
              "years, idempotence of the normalizedString / token whitespace normalisers on strings up to length 3 (thorough 4), and "
-             "XSD duration / language lexical spaces within the live parsing patterns (any length). Float, double, decimal, date/time "
+             "XSD duration / language lexical spaces within the live parsing patterns (any length), Literal.eq/neq on numeric literals of 6 datatypes with unbounded symbolic integer values. Float, double, decimal, date/time "
              "value mappings and Literal construction itself are out of reach and not claimed.",
         note="Trusted base: CrossHair 0.0.110's model of Python str/int (counterexamples are replayed outside CrossHair; it has a known "
              "unsoundness around negative slice bounds on symbolic strings), z3, the %s/str.format shims, the reference decoders/matchers "
